@@ -17,8 +17,28 @@
                                                         unpack_total_checked (the fixed code)
   every bare assertion / unchecked index is known     sites_accounted, model_sites_in_table,
                                                         model_sites_reachable
+  the receive loop never gets stuck (L3)              run_never_stuck_full (FALSE today, F16):
+                                                        run_never_stuck_full_fails (two witnesses),
+                                                        stuck_is_forever, run_never_stuck_partial
+                                                        (exact guard), run_can_always_be_unblocked
+  … nor in the invocation queue                       inv_queue_never_blocks_full (FALSE, F42):
+                                                        inv_queue_never_blocks_full_fails,
+                                                        inv_queue_blocked_until_handler_returns
+  Close() always returns                              close_returns_full (FALSE, F16):
+                                                        close_returns_full_fails, close_returns_partial
+  … and never panics                                  close_never_panics_full (FALSE, F41):
+                                                        close_never_panics_full_fails
+  Done() signalled once, on GOODBYE/ABORT/transport   done_signalled, session_end_closes_done,
+    end                                                 goodbye_abort_end_session
+
+  The L3 theorems are about the transition systems `Nexus.Client.R` / `Nexus.Client.I`, whose
+  events are the atomic steps of the client's goroutines (every schedule is an event sequence),
+  instantiated with facts regenerated from client/*.go (`cfgToday`). Goroutine leaks are observed
+  by the family, not proved.
 -/
 import Nexus.Client.PptLemmas
+import Nexus.Client.RendezvousAll
+import Nexus.Client.InvokeProps
 
 namespace Nexus.C17
 open Nexus.Client Nexus.Gen
@@ -132,5 +152,154 @@ theorem model_sites_reachable :
     unpackE2EEPayload false (fun _ _ => .err) [(N.OptPPTSerializer, .str "cbor")] [.int 0] =
       .panic (siteText "unpackE2EEPayload" "assert" "args[0].([]byte)") := by
   refine ⟨?_, ?_, ?_, ?_, ?_, ?_, ?_, ?_⟩ <;> rfl
+
+/-! ## run_never_stuck -/
+
+open Nexus.Client.R in
+/-- Full strength: in no reachable state of the rendezvous is the receive loop blocked for good. -/
+def run_never_stuck_full : Prop :=
+  ∀ evs st, R.steps R.cfgToday {} evs = some st → ¬ R.RunStuck R.cfgToday st
+
+/-- F16, witness 1 (`Witness.f16`): SUBSCRIBE; the response timer fires; SUBSCRIBED arrives and
+    `run` looks the waiter up before the waiter has deleted its entry; the waiter deletes the
+    entry and returns ErrReplyTimeout; `run` stays in `w <- msg` for ever.
+    Witness 2 (`Witness.f16dup`): the router answers one SUBSCRIBE twice; `run` hands over the
+    first, looks up the second before the waiter has deleted its entry, and blocks. -/
+theorem run_never_stuck_full_fails : ¬ run_never_stuck_full := by
+  intro h
+  obtain ⟨st, hst, hb⟩ := R.exists_of_map R.f16_runs
+  exact h _ st hst (R.stuck_of_stuckB _ st hb)
+
+theorem run_never_stuck_dup_witness :
+    ∃ st, R.steps R.cfgToday {} Witness.f16dup = some st ∧ R.RunStuck R.cfgToday st := by
+  obtain ⟨st, hst, hb⟩ := R.exists_of_map R.f16dup_runs
+  exact ⟨st, hst, R.stuck_of_stuckB _ st hb⟩
+
+/-- `RunStuck` really is "for good": no event of the loop is enabled, and whatever the other
+    goroutines, timers, the router and Close do afterwards, it stays that way. -/
+theorem stuck_is_forever (cfg : R.Cfg) (st : R.State) (hs : R.RunStuck cfg st) :
+    (∀ ev, ev.isRun = true → R.step cfg st ev = none) ∧
+    (∀ evs st', R.steps cfg st evs = some st' → R.RunStuck cfg st') :=
+  ⟨fun ev he => R.stuck_no_run_step cfg st ev hs he, fun evs st' h => R.stuck_forever cfg st evs st' hs h⟩
+
+/-- Partial, with the exact guard: along every event sequence in which (1) no response timer
+    fires for a waiter the loop is already sending to and (2) the loop never takes a reply whose
+    waiter has left its select but not yet deleted its entry (`R.racy`), the loop is never stuck. -/
+theorem run_never_stuck_partial (cfg : R.Cfg) (evs : List R.Ev) (st : R.State)
+    (h : R.stepsGuarded cfg {} evs = some st) : ¬ R.RunStuck cfg st :=
+  R.never_stuck_guarded cfg evs st h
+
+/-- Non-vacuity: an ordinary exchange (subscribe, reply, hand-over, return) passes the guard. -/
+example : (R.stepsGuarded {} {} [.apiStart 1 .subscribe "t" false, .apiWait 1, .inject (.subscribed 1 5), .runRecv,
+    .deliver, .finish 1]).map (fun st => (match (st.ws 1).phase with | .returned _ => true | _ => false)) =
+    some true := by decide
+
+/-- With the proposed fix (`signalEscapes`: the select in `runSignalReply` also watches a channel
+    the waiter closes when it leaves) the loop is never stuck, whatever the schedule. -/
+theorem run_never_stuck_fixed (cfg : R.Cfg) (hfix : cfg.signalEscapes = true) (st : R.State) :
+    ¬ R.RunStuck cfg st := by
+  rintro ⟨h, _⟩; rw [hfix] at h; cases h
+
+/-- Whenever the loop is not stuck for good it can be brought back to its select by steps of the
+    goroutines it waits for — so `RunStuck` is exactly "blocked for good". -/
+theorem run_can_always_be_unblocked (st : R.State) (hr : R.Reachable R.cfgToday st)
+    (hc : st.crashed = none) (hsc : st.sendClosed = false) (hns : ¬ R.RunStuck R.cfgToday st) :
+    ∃ evs, (R.steps R.cfgToday st evs).map R.quietB = some true :=
+  R.unblock_run R.cfgToday st (R.inv_reachable _ st hr) hc hsc R.today_no_escape hns
+
+/-! ## the invocation queue -/
+
+/-- Full strength: the loop is never blocked in `handlerQueue <- msg`. -/
+def inv_queue_never_blocks_full : Prop :=
+  ∀ evs st, I.steps {} {} evs = some st → st.pendingSend = none
+
+/-- F42 (`Witness.dupInv`): three INVOCATIONs with one request id while the handler runs the
+    first: the second fills the queue (capacity 1), the third blocks the loop. -/
+theorem inv_queue_never_blocks_full_fails : ¬ inv_queue_never_blocks_full := by
+  intro h
+  cases hs : I.steps {} {} Witness.dupInv with
+  | none => have := I.dupInv_blocks; rw [hs] at this; simp at this
+  | some st =>
+    have hb := I.dupInv_blocks
+    rw [hs] at hb
+    have := h _ st hs
+    simp [this] at hb
+
+/-- … and it stays blocked until the application's handler returns: an INTERRUPT that would end
+    a handler waiting for its context is behind the blocked message and is never read. -/
+theorem inv_queue_blocked_until_handler_returns (cfg : I.Cfg) (st : I.State) (ev : I.Ev) (st' : I.State)
+    (w : Nat) (i j : I.Inv) (hp : st.pendingSend = some (w, i))
+    (hfull : ¬ (st.ws w).queue.length < cfg.queueCap) (hrun : (st.ws w).inner = .running j)
+    (hev : ∀ r d, ev ≠ .handlerReturn w r d) (h : I.step cfg st ev = some st') :
+    st'.pendingSend = some (w, i) ∧ ¬ (st'.ws w).queue.length < cfg.queueCap ∧ (st'.ws w).inner = .running j :=
+  I.queue_blocked_until_handler_returns cfg st ev st' w i j hp hfull hrun hev h
+
+/-! ## close_returns -/
+
+/-- Full strength: from every reachable state some continuation lets Close() return. -/
+def close_returns_full : Prop :=
+  ∀ evs st, R.steps R.cfgToday {} evs = some st → st.crashed = none →
+    ∃ evs' st', R.steps R.cfgToday st evs' = some st' ∧ st'.close = .returned
+
+/-- F16 again: after the wedge (witness above, which goes on to call Close: GOODBYE, the router's
+    GOODBYE is never read, EndRecv, `<-c.Done()`) no continuation whatsoever lets Close return,
+    and Done() is never signalled. -/
+theorem close_returns_full_fails : ¬ close_returns_full := by
+  intro h
+  obtain ⟨st, hst, hb⟩ := R.exists_of_map R.f16_runs
+  have hs := R.stuck_of_stuckB _ st hb
+  have hcr : st.crashed = none := by
+    have : (R.steps R.cfgToday {} Witness.f16).map (fun s => s.crashed.isNone) = some true := by decide
+    rw [hst] at this
+    simpa using this
+  obtain ⟨evs', st', h1, h2⟩ := h _ st hst hcr
+  exact (R.stuck_close_never_returns _ st ⟨_, hst⟩ hs evs' st' h1).2 h2
+
+/-- Partial: from every reachable state in which the loop is not stuck for good, nothing crashed
+    and the send side is still open, Close() can return (handlers return, workers finish). -/
+theorem close_returns_partial (st : R.State) (hr : R.Reachable R.cfgToday st) (hc : st.crashed = none)
+    (hsc : st.sendClosed = false) (hns : ¬ R.RunStuck R.cfgToday st) :
+    ∃ evs st', R.steps R.cfgToday st evs = some st' ∧ st'.close = .returned ∧ st'.crashed = none :=
+  R.close_can_return R.cfgToday st hr hc hsc R.today_no_escape hns
+
+/-- Full strength: no API call or Close() ever panics, whatever the router sent before. -/
+def close_never_panics_full : Prop :=
+  ∀ cfg evs st, R.steps cfg {} evs = some st → st.crashed = none
+
+/-- F41 (`Witness.pptAbort`): the router (which did not announce payload passthru) answers a CALL
+    with a RESULT carrying `ppt_scheme`; Call sends ABORT and closes the session's send side;
+    Close() then sends GOODBYE on the closed channel. -/
+theorem close_never_panics_full_fails : ¬ close_never_panics_full := by
+  intro h
+  cases hs : R.steps Witness.pptAbortCfg {} Witness.pptAbort with
+  | none => have := R.pptAbort_runs; rw [hs] at this; simp at this
+  | some st =>
+    have hb := R.pptAbort_runs
+    rw [hs] at hb
+    have := h _ _ st hs
+    simp [this] at hb
+
+/-! ## done_signalled -/
+
+/-- Done() is closed exactly when the loop has exited, and exactly once. -/
+theorem done_signalled (cfg : R.Cfg) (st : R.State) (hr : R.Reachable cfg st) :
+    (st.done = true ↔ st.run = .exited) ∧ List.countP R.isDoneOut st.out = if st.done then 1 else 0 := by
+  have hi := R.allInv_reachable cfg st hr
+  exact ⟨hi.state.1, hi.doneOnce⟩
+
+/-- When the loop (at its select) finds the transport closed, or a message whose case in
+    `runReceiveFromRouter` returns true, at the head of its queue, taking it exits the loop and
+    closes Done(). -/
+theorem session_end_closes_done (cfg : R.Cfg) (st : R.State) (x : Option RMsg) (rest : List (Option RMsg))
+    (hc : st.crashed = none) (hrun : st.run = .idle) (hin : st.inbox = x :: rest)
+    (hx : R.endsSession x = true) :
+    ∃ st', R.step cfg st .runRecv = some st' ∧ st'.done = true ∧ st'.run = .exited :=
+  R.session_end_signals_done cfg st x rest hc hrun hin hx
+
+/-- GOODBYE and ABORT are such messages (regenerated switch), the transport closing is one too. -/
+theorem goodbye_abort_end_session (d : Dict) (reason : String) :
+    R.endsSession (some (.goodbye d reason)) = true ∧ R.endsSession (some (.abort d reason)) = true ∧
+    R.endsSession none = true := by
+  refine ⟨?_, ?_, rfl⟩ <;> simp [R.endsSession, R.actionOf, RMsg.typeName, Client.recvSwitch]
 
 end Nexus.C17
